@@ -1,6 +1,6 @@
 (* C16 -- The support header is self-consistent, valid C++ over the documented Qt API.  ONLY property theorems here.
    "Valid C++" is decided by g++ on every emitted header (the check); the theorems cover the self-consistency clauses. *)
-From QV Require Import model.Base model.Names model.Header proofs.HeaderProofs.
+From QV Require Import model.Base model.Names model.Lang model.Types model.Tir model.Passes model.Header proofs.HeaderProofs proofs.PropdepProofs.
 Open Scope nat_scope.
 
 (* names: the suffixes of all bindings, gadget members and callbacks of a document come from ONE generator and are pairwise
@@ -30,6 +30,14 @@ Print Assumptions C16_guard_nonempty.
 Theorem C16_guard_bits_distinct : forall i j, guard_word i = guard_word j -> guard_bit i = guard_bit j -> i = j.
 Proof. exact guard_bits_distinct. Qed.
 Print Assumptions C16_guard_bits_distinct.
+
+(* observer arrays: the observations inserted by the dependency analysis use exactly the slots c_nobs(before) .. c_nobs(after)-1, each
+   once -- so an array of property_observer_count entries is large enough for every observed[k] of the function *)
+Theorem C16_observer_slots : forall E c c' ds, analyze_code_property_dependency E c = Ok (c', ds) ->
+  Forall (fun b => no_observe (b_stmts b)) (c_blocks c) ->
+  flat_map (fun b => observe_handles (b_stmts b)) (c_blocks c') = seq (c_nobs c) (c_nobs c' - c_nobs c).
+Proof. intros E c c' ds H. exact (proj2 (dependency_complete E c c' ds H)). Qed.
+Print Assumptions C16_observer_slots.
 
 (* string literals (after the repair of F9): for EVERY source string, what a C++17 lexer reads from the written literal is that
    string *)
